@@ -65,7 +65,8 @@ I_C06_ArrayView ==
               \A lf \in Leaves(r, a) : \A e \in Range(OrderOf(lf)) : Alive(r, e) => In(sh, e)
 
 \* C15: nothing staged means no staged objects either
-I_C15_StageConsistent == \A r \in Replica : up[r] /\ ~HasStaging(r) => sobjs[r] = {}
+\* (remove_object drops an object's staged revisions but not its staged body: excluded when the object-level API is modelled)
+I_C15_StageConsistent == "objapi" \notin Feat => \A r \in Replica : up[r] /\ ~HasStaging(r) => sobjs[r] = {}
 
 -----------------------------------------------------------------------------
 (* Action properties: about the step whose label is act' *)
